@@ -226,7 +226,7 @@ impl Prop for C27 {
          (real is_valid gate + real decode_and_verify_responses over real encoded headers of a 720-header chain), \
          hand-polled, with the answering order and the per-answer peer behaviour (full / at most k / NOT_FOUND / INVALID) \
          given by cyclic patterns in the op and a step budget that turns a hang into the outcome `hang`. Amounts 0, \
-         1..600 (quick: a sample; thorough: every amount), amounts at and around the u64 overflow boundary for small and \
+         1..600 (quick: a sample; thorough: every amount) served fully and by truncating-but-progressing peers, amounts at and around the u64 overflow boundary for small and \
          near-i64::MAX start heights, `from` valid / invalidated / from another chain, chains shorter than the request. \
          Non-trivial = every op; distinct = distinct (op, result) lines."
     }
@@ -263,6 +263,24 @@ impl Prop for C27 {
             out.op(
                 format!("gvr from={from} fromkind=ok amount={amount} chain={CHAIN} order={} beh=f fuel={}", pat(rng), amount + rng.below(3)),
                 "served",
+                true,
+            );
+        }
+        // served by truncating-but-progressing peers (every answer delivers >= 1 header): must return
+        for _ in 0..(if thorough { 300 } else { 60 }) {
+            let from = rng.range(1, 60);
+            let amount = rng.range(1, 400);
+            let behs: Vec<String> = (0..rng.range(1, 6))
+                .map(|_| if rng.chance(1, 3) { "f".to_string() } else { format!("p{}", rng.range(1, 70)) })
+                .collect();
+            out.op(
+                format!(
+                    "gvr from={from} fromkind=ok amount={amount} chain={CHAIN} order={} beh={} fuel={}",
+                    pat(rng),
+                    behs.join(","),
+                    amount + rng.below(3)
+                ),
+                "served-truncating",
                 true,
             );
         }
